@@ -33,6 +33,12 @@ RULES = {
 def run(ck, m):
     _run(ck, m)
     stamp_rule(ck, m)
+    # watchers are told exactly what was stored: C03.a (every committed write is followed by a notification of the written operands),
+    # C03.g (the notifier re-reads nothing) and C03.j (only the mutators notify), repeated — the Newer resolution commits through the same store
+    from nl import alias as _alias19
+    ck.rule('C19.k', 'watchers are notified exactly when, and of exactly what, the store commits (C03.a / C03.g / C03.j, repeated): the notification '
+                     'follows the insert on every path, carries the operands of that insert and is sent by the mutator itself')
+    _alias19.repeat(ck, m, 'C03', ('C03.a', 'C03.g', 'C03.j'), 'C19.k', floor=3)
     # the store compares and writes under one write lock (the rule is C02.a's, evaluated here for the store only): with the
     # entry read in an earlier section a concurrent older write is checked against a stale copy, is accepted without a
     # VersionError — so the Newer resolution never sees it — and the stored version goes back
